@@ -21,6 +21,14 @@ def T(name, content=None, kids=(), attrs=(), id=None, tail=None, prefix=None, ex
 _counter = [0]
 
 
+def set_content(n, content):
+    """content as given: through the public setter; only a value the setter would convert (a non-str planted by a malformed
+    stream) is written to the backing field directly"""
+    n.content = content
+    if content is not None and type(content) is not str:
+        n._content = content
+
+
 def build(t, parent=None, ids=True):
     """exactly the described value tree (no namespace merging: fields are set directly)"""
     i, name, content, tail, prefix, attrs, extras, nsmap, kids = t
@@ -29,7 +37,7 @@ def build(t, parent=None, ids=True):
         i = f"n{_counter[0]}"
         t[0] = i
     n = Node(name, id=i)
-    n._content = content
+    set_content(n, content)
     n.tail = tail
     n.prefix = prefix
     for k, v in attrs:
